@@ -31,7 +31,10 @@ class HarnessError(Exception):
 class Worker:
     def __init__(self, layer="rel", stack_kib=2048, extra_args=()):
         self.layer = layer
-        self.stack_kib = stack_kib
+        # AddressSanitizer inflates every stack frame with red zones (3-4x for the recursive HTML tree
+        # walk): the stated 2 MiB bound is about uninstrumented code, so the asan layer gets 16 MiB and
+        # judges memory errors only, not stack depth
+        self.stack_kib = stack_kib * 8 if layer.split(":")[0] == "asan" else stack_kib
         self.extra_args = list(extra_args)
         self.proc = None
         self.buf = b""
